@@ -11,20 +11,26 @@ Lemma flat_main cap unit ops :
 Proof.
   intros Hu Hu64 Hc W.
   destruct (run_refines cap unit ops _ _ (ref_new cap unit Hu Hu64 Hc) W) as [P R].
-  split; [exact P|apply R].
+  rewrite run_eq, run_flat_eq. cbn [fst snd].
+  split; [exact P|apply (proj1 R)].
 Qed.
 
 (** the flat reference does not look at the unit size, except to compare shape headers *)
 Definition shape_free (o : op) : bool := match o with OLoadShape _ _ => false | _ => true end.
 
-Lemma run_flat_unit_free cap u1 u2 : forall ops l, forallb shape_free ops = true ->
-  run_flat cap u1 l ops = run_flat cap u2 l ops.
+Lemma runx_flat_unit_free cap u1 u2 : forall ops x, forallb shape_free ops = true ->
+  runx_flat cap u1 x ops = runx_flat cap u2 x ops.
 Proof.
-  induction ops as [|o r IH]; intros l H; [reflexivity|].
+  induction ops as [|o r IH]; intros x H; [reflexivity|].
   cbn [forallb] in H. apply andb_true_iff in H. destruct H as [Ho Hr].
-  cbn [run_flat]. assert (E : flat_step cap u1 l o = flat_step cap u2 l o) by (destruct o; try reflexivity; discriminate).
-  rewrite E. destruct (flat_step cap u2 l o) as [l1 b]. rewrite (IH l1 Hr). reflexivity.
+  cbn [runx_flat]. assert (E : flat_step cap u1 x o = flat_step cap u2 x o)
+    by (destruct x; destruct o; try reflexivity; discriminate).
+  rewrite E. destruct (flat_step cap u2 x o) as [x1 b]. rewrite (IH x1 Hr). reflexivity.
 Qed.
+
+Lemma run_flat_unit_free cap u1 u2 ops l : forallb shape_free ops = true ->
+  run_flat cap u1 l ops = run_flat cap u2 l ops.
+Proof. intro H. unfold run_flat. rewrite (runx_flat_unit_free cap u1 u2 ops _ H). reflexivity. Qed.
 
 Lemma unit_irrelevant cap u1 u2 ops :
   0 < u1 -> u1 < two64 -> 0 < u2 -> u2 < two64 -> cap < two64 ->
@@ -46,7 +52,8 @@ Lemma run_inv cap unit ops :
   Inv (fst (run false (new_storage cap unit) ops)).
 Proof.
   intros Hu Hu64 Hc W.
-  destruct (run_refines cap unit ops _ _ (ref_new cap unit Hu Hu64 Hc) W) as [_ R]. apply R.
+  destruct (run_refines cap unit ops _ _ (ref_new cap unit Hu Hu64 Hc) W) as [_ R].
+  rewrite run_eq. cbn [fst]. apply (proj1 R).
 Qed.
 
 Lemma ckpt_roundtrip st iter : Inv st -> Permutation iter (s_data st) ->
@@ -61,12 +68,7 @@ Proof.
   destruct (load_save st _ I Sh) as [st' [L [I' [[Sc Su] M]]]].
   exists st'. repeat (split; [assumption|]). split.
   - apply contents_meq; assumption.
-  - (* the restored storage saves to the same stream *)
-    unfold save, save_iter. rewrite Sc, Su.
-    assert (K : sortN (map fst (s_data st')) = sortN (map fst (s_data st))).
-    { apply sortN_perm. apply NoDup_Permutation; try apply I; try apply I'.
-      intro k. rewrite <- !get_in_keys, M. reflexivity. }
-    rewrite K. f_equal. f_equal. f_equal. apply flat_map_ext. intro a. rewrite M. reflexivity.
+  - apply save_meq; [exact I|exact I'|split; assumption|exact M].
 Qed.
 
 (** ** link between the evaluators *)
@@ -78,11 +80,12 @@ Qed.
 
 Lemma obs_eqb_eq a b : obs_eqb a b = true -> a = b.
 Proof.
-  destruct a as [x|s1 k1|k1], b as [y|s2 k2|k2]; cbn; try discriminate.
+  destruct a as [x|s1 k1 r1|k1|s1], b as [y|s2 k2 r2|k2|s2]; cbn; try discriminate.
   - intro H. apply rres_eqb_eq in H. congruence.
-  - intro H. apply andb_true_iff in H. destruct H as [H1 H2].
-    apply listN_eqb_eq in H1. apply Bool.eqb_prop in H2. congruence.
+  - intro H. apply andb_true_iff in H. destruct H as [H1 H3]. apply andb_true_iff in H1. destruct H1 as [H1 H2].
+    apply listN_eqb_eq in H1. apply Bool.eqb_prop in H2. apply Bool.eqb_prop in H3. congruence.
   - intro H. apply Bool.eqb_prop in H. congruence.
+  - intro H. apply listN_eqb_eq in H. congruence.
 Qed.
 
 Lemma list_eqb_sound {A} (eqb : A -> A -> bool) (Hs : forall x y, eqb x y = true -> x = y) a b :
